@@ -12,7 +12,7 @@ import Cellml.Model.State
     one of the accessors below, which read or update the hand-written model state `Model.MState`
     (`Cellml/Model/State.lean`). Core Lean only. -/
 
-namespace Cellml.Tie
+namespace Cellml.Tie.PModelState
 open Model
 
 -- ------------------------------------------------------------------------------------------------ the monad
@@ -277,4 +277,4 @@ def outcome {α} (a : α) : MState × Outcome → Except PyErr α × MState
   | (s, .ok) => (.ok a, s)
   | (s, .raised e) => (.error ⟨errName e⟩, s)
 
-end Cellml.Tie
+end Cellml.Tie.PModelState
